@@ -1,6 +1,7 @@
 /-
   Line-protocol driver: one case per input line (an s-expression), tagged canonical lines out.
-  Only imports the import-free model, so it links as a `lean_exe`.
+  Imports the model and (for the `(witnesses)` line) the kernel-checked witness datasets of
+  `PyhamModel/Witness.lean`; everything is core Lean, so it links as a `lean_exe`.
 -/
 import PyhamModel.Model.Tree
 import PyhamModel.Model.Input
@@ -15,6 +16,7 @@ import PyhamModel.Model.Realises
 import PyhamModel.Model.Spell
 import PyhamModel.Model.Agg
 import PyhamModel.Model.Session
+import PyhamModel.Witness
 open Pyham
 
 /-! ### s-expressions -/
@@ -384,8 +386,50 @@ def findField (name : String) (xs : List SExp) : List SExp :=
   | some (.list (_ :: r)) => r
   | _ => []
 
+
+/-! ### the witness datasets of `PyhamModel/Witness.lean`, printed as case lines
+
+  `(witnesses)` on the input makes the driver print, for every dataset that is PROVED consistent in
+  `Witness.lean`, the case s-expression (tree, naming, species, groups = `D.file`, histories = `D.fams`);
+  the harness parses it back, writes the orthoXML, loads it with pyham and runs it like a generated case. -/
+
+def sxQ (s : String) : String :=
+  "\"" ++ String.join (s.toList.map fun c => if c == '"' || c == '\\' then "\\" ++ c.toString else c.toString) ++ "\""
+def sxQo : Option String → String
+  | none => "nil"
+  | some s => sxQ s
+partial def sxTree : STree → String
+  | .node n ks => "(n " ++ sxQ n ++ String.join (ks.map fun k => " " ++ sxTree k) ++ ")"
+def sxTax (p : Taxon) : String := "(" ++ " ".intercalate (p.reverse.map toString) ++ ")"
+partial def sxElem : Elem → String
+  | .ref i l => "(ref " ++ sxQ i ++ (match l with | some x => " " ++ sxQ x | none => "") ++ ")"
+  | .score i v => "(score " ++ sxQ i ++ " " ++ sxQ v ++ ")"
+  | .prop n v => "(prop " ++ sxQ n ++ " " ++ sxQ v ++ ")"
+  | .og h o its => "(og " ++ sxQo h ++ " " ++ sxQo o ++ String.join (its.map fun e => " " ++ sxElem e) ++ ")"
+  | .pg o its => "(pg " ++ sxQo o ++ String.join (its.map fun e => " " ++ sxElem e) ++ ")"
+mutual
+partial def sxSL : SL → String
+  | .gene i l => "(g " ++ sxQ i ++ (match l with | some x => " " ++ sxQ x | none => "") ++ ")"
+  | .grp w h lab subs => "(grp " ++ (if w then "1" else "0") ++ " " ++ sxQo h ++ " " ++ (if lab then "1" else "0") ++
+      String.join (subs.map fun s => " " ++ sxSub s) ++ ")"
+partial def sxSub : Sub → String
+  | .one i l => "(one " ++ toString i ++ " " ++ sxSL l ++ ")"
+  | .dup i o cs => "(dup " ++ toString i ++ " " ++ sxQo o ++ String.join (cs.map fun c => " " ++ sxSL c) ++ ")"
+  | .ann e => "(ann " ++ sxElem e ++ ")"
+end
+def sxDataset (name : String) (D : Dataset) : String :=
+  "(case " ++ sxQ name ++ " (tree " ++ sxTree D.T ++ ") (naming " ++ (match D.nm with | .own => "own" | .synth => "synth") ++
+  ") (species" ++ String.join (D.file.species.map fun s => " (sp " ++ sxQ s.name ++
+      String.join (s.genes.map fun g => " (gene " ++ sxQ g.id ++ String.join (g.xrefs.map fun kv => " (" ++ sxQ kv.1 ++ " " ++ sxQ kv.2 ++ ")") ++ ")") ++ ")") ++
+  ") (groups" ++ String.join (D.file.groups.map fun e => " " ++ sxElem e) ++
+  ") (histories" ++ String.join (D.fams.map fun f => " (" ++ sxTax f.1 ++ " " ++ sxSL f.2 ++ ")") ++ "))"
+
+def witnessLines : Array String :=
+  #["W\twcase\t" ++ sxDataset "simpleEx" Pyham.Witness.simpleEx, "W\twcase\t" ++ sxDataset "elided" Pyham.Witness.elided, "W\tend\t"]
+
 def runCase (e : SExp) : Array String :=
   match e with
+  | .list [.atom "witnesses"] => witnessLines
   | .list (.atom "case" :: .str cid :: fields) =>
     let T := match findField "tree" fields with | [t] => decTree t | _ => .node "?" []
     let nm := match findField "naming" fields with | [.atom "own"] => Naming.own | _ => Naming.synth
